@@ -241,8 +241,8 @@ func (p *P) pkgLevel(r *core.Result, src *tape.Source, ctl *pool.Ctl, ctxmsg str
 	rot := src.Intn(len(probe.Inputs), "c08.pkgrot")
 	run := func() []probe.Res {
 		var out []probe.Res
-		for i := 0; i < 4; i++ {
-			in := probe.Inputs[(rot+i*3)%len(probe.Inputs)]
+		for i := 0; i < 6; i++ {
+			in := probe.Inputs[(rot+i)%len(probe.Inputs)] // consecutive: neighbours in the list are meant to follow each other
 			a, err := gosqlx.Parse(in.SQL)
 			out = append(out, probe.Res{Name: in.Name + "/gosqlx.Parse", Canon: treeCanon(a, err)})
 			a, err = parser.ParseBytes([]byte(in.SQL))
